@@ -1,9 +1,9 @@
 (* C19 — output files are complete, correctly attributed and never clobbered.
-   Only statements here; proofs live in Proofs/OutputsDir.v and Proofs/OutputsFiles.v.
+   Only statements here; proofs live in Proofs/OutputsDir.v, Proofs/OutputsFiles.v and Proofs/OutputsHist.v.
    Gen_C19 (src_mkdir_exclusive, src_tables) is regenerated on every run from
    pyxel/outputs/outputs.py, pyxel/outputs/utils.py and the save_to_files call of exposure.py. *)
 From Coq Require Import List Bool Arith ZArith String Lia.
-From PyxelV Require Import Model.Outputs Proofs.OutputsDir Proofs.OutputsFiles.
+From PyxelV Require Import Model.Outputs Model.OutputsHist Proofs.OutputsDir Proofs.OutputsFiles Proofs.OutputsHist.
 From PyxelGen Require Import Gen_C19.
 Import ListNotations.
 Open Scope string_scope.
@@ -203,3 +203,116 @@ Proof.
   vm_compute in Hn. destruct Hn as [E|[]]. discriminate E.
 Qed.
 Print Assumptions C19_complete_seq_refuted.
+
+(* ---------------------------------------------------------------- histories on ONE configuration object
+   run_mode is called again and again on one running-mode / Outputs object; between the calls the
+   request (in place or by assignment), the folder and the prefix are edited.  [sims] lists, independently
+   of the save machinery, what each call was asked for: the request, folder and prefix in force when it
+   started.  [plain]: every simulation is computed when it is started (Edit | Run). *)
+
+(* For EVERY sequence of edits and runs, every mode, every world: each run is exactly the standalone
+   save flow on the request in force at that time, in a directory that did not exist and is a candidate
+   of the folder/prefix of that time; the directories are pairwise distinct; every directory that
+   existed keeps its files; what a run left is still there at the end; every run is recorded.
+   (Induction over the operation sequence, Proofs/OutputsHist.v hist_main.) *)
+Theorem C19_history_standalone : forall m ts ops c w wf recs,
+  plain ops ->
+  run_hist m src_tables src_mkdir_exclusive ts ops (init_state c) w 0 = (wf, recs) ->
+  (forall r, In r recs -> exists s, In s (sims ts ops c 0) /\ rec_of_sim m src_tables r s) /\
+  NoDup (map r_dir recs) /\
+  (forall r, In r recs -> ~ In (r_dir r) (wdirs w)) /\
+  (forall d fs, wget d w = Some fs -> wget d wf = Some fs) /\
+  (forall r, In r recs -> wget (r_dir r) wf = Some (r_files r)) /\
+  (forall s, In s (sims ts ops c 0) -> sm_lazy s = false -> exists r, In r recs /\ r_ep r = sm_ep s).
+Proof. intros m ts ops c w wf recs P H. exact (hist_sound m src_tables ts ops c w wf recs (or_intror P) H). Qed.
+Print Assumptions C19_history_standalone.
+
+(* completeness per run, judged against the request AT THAT TIME (exposure and parallel observation):
+   the reported entries of every run that returned normally are exactly one per (bucket, format, run)
+   of the request in force when it started, under that combination's name — nothing of an earlier or
+   later request *)
+Theorem C19_history_complete : forall m ts ops c w wf recs,
+  m <> MSeq -> plain ops ->
+  run_hist m src_tables src_mkdir_exclusive ts ops (init_state c) w 0 = (wf, recs) ->
+  forall r, In r recs -> r_err r = None ->
+  exists s, In s (sims ts ops c 0) /\ sm_ep s = r_ep r /\
+    forall x b f n, In (x, b, f, n) (r_rep r) <->
+      x < nruns_of m (sm_n s) /\ In (b, f) (items (sm_req s)) /\ n = spec_name m x b f.
+Proof.
+  intros m ts ops c w wf recs Nm P H r Hr He.
+  destruct (hist_lift m src_tables ts ops c w wf recs (or_intror P) H r Hr) as (s & Hs & E & _ & _ & _ & _ & Fl).
+  exists s. split; [exact Hs|]. split; [exact E|].
+  unfold eff_mode in Fl. rewrite (plain_sims_eager _ _ _ _ _ P Hs) in Fl. rewrite He in Fl.
+  destruct m; [apply (flow_complete_exposure _ _ _ _ _ _ _ Fl) | congruence | apply (flow_complete_dask _ _ _ _ _ _ _ Fl)].
+Qed.
+Print Assumptions C19_history_complete.
+
+(* never clobbered, over the whole history (exposure and parallel observation): every directory that
+   existed before keeps its files, and whatever was in a run's new directory before its first write is
+   still there, unchanged, at the END of the history — later runs included *)
+Theorem C19_history_never_clobbers : forall m ts ops c w wf recs,
+  m <> MSeq -> plain ops ->
+  run_hist m src_tables src_mkdir_exclusive ts ops (init_state c) w 0 = (wf, recs) ->
+  (forall d fs, wget d w = Some fs -> wget d wf = Some fs) /\
+  (forall r, In r recs -> exists s fs, In s (sims ts ops c 0) /\ sm_ep s = r_ep r /\
+     wget (r_dir r) wf = Some fs /\ forall f x, lookup f (sm_pre s) = Some x -> lookup f fs = Some x).
+Proof.
+  intros m ts ops c w wf recs Nm P H.
+  assert (S : safe_new src_tables = true) by (vm_compute; reflexivity).
+  split; [exact (proj1 (proj2 (proj2 (proj2 (hist_sound m src_tables ts ops c w wf recs (or_intror P) H)))))|].
+  intros r Hr.
+  destruct (hist_lift m src_tables ts ops c w wf recs (or_intror P) H r Hr) as (s & Hs & E & _ & _ & _ & W & Fl).
+  exists s, (r_files r). split; [exact Hs|]. split; [exact E|]. split; [exact W|].
+  unfold eff_mode in Fl. rewrite (plain_sims_eager _ _ _ _ _ P Hs) in Fl.
+  destruct m; [exact (flow_exposure_preserves _ S _ _ _ _ _ _ Fl) | congruence | exact (flow_dask_preserves _ S _ _ _ _ _ _ _ Fl)].
+Qed.
+Print Assumptions C19_history_never_clobbers.
+
+(* attribution at the END of the history (exposure and parallel observation; new directories without
+   colliding names): every file a run reported still holds the bucket of THAT run of THAT simulation *)
+Theorem C19_history_attributed_partial : forall m ts ops c w wf recs,
+  m <> MSeq -> plain ops -> (forall n pre, In (Run n pre) ops -> fresh pre) ->
+  run_hist m src_tables src_mkdir_exclusive ts ops (init_state c) w 0 = (wf, recs) ->
+  forall r, In r recs -> exists fs, wget (r_dir r) wf = Some fs /\ attributed (r_ep r) (r_rep r) fs.
+Proof.
+  intros m ts ops c w wf recs Nm P Fr H r Hr.
+  destruct (hist_lift m src_tables ts ops c w wf recs (or_intror P) H r Hr) as (s & Hs & E & _ & _ & _ & W & Fl).
+  exists (r_files r). split; [exact W|].
+  pose proof (plain_sims_eager _ _ _ _ _ P Hs) as Lz.
+  unfold eff_mode in Fl. rewrite Lz in Fl. rewrite <- E.
+  pose proof (Fr _ _ (sims_run_in _ _ _ _ _ Hs Lz)) as F.
+  destruct m; [exact (flow_exposure_attributed _ _ _ _ _ _ _ F Fl) | congruence | exact (flow_dask_attributed _ _ _ _ _ _ _ _ F Fl)].
+Qed.
+Print Assumptions C19_history_attributed_partial.
+
+(* non-vacuity: the request grows in place between two exposures on one object; the second run is judged
+   against the grown request (and reports exactly its three files), the first against the original one *)
+Example C19_ex_history :
+  let c := {| c_req := [[(Image, [Fits])]]; c_folder := "out"; c_prefix := "" |} in
+  let ops := [Run 1 []; Edit (EAppendDict [(Pixel, [Npy])]); Edit (EAppendFmt 0 Image Npy); Run 1 []] in
+  plain ops /\
+  map sm_req (sims "T" ops c 0) = [[[(Image, [Fits])]]; [[(Image, [Fits; Npy])]; [(Pixel, [Npy])]]] /\
+  let '(wf, recs) := run_hist MExposure src_tables src_mkdir_exclusive "T" ops (init_state c) [("out/run_T", [("keep", 7%Z)])] 0 in
+  map r_dir recs = ["out/run_T_1"; "out/run_T_2"] /\
+  map (fun r => List.length (r_rep r)) recs = [1; 3] /\
+  wget "out/run_T" wf = Some [("keep", 7%Z)].
+Proof. vm_compute. repeat split; reflexivity. Qed.
+
+(* FULL statement for lazily computed parallel observations: whatever the order of starts, edits and
+   computes, every observation writes into the directory it created *)
+Definition C19_history_lazy_full : Prop :=
+  forall ts ops c w wf recs,
+    run_hist MDask src_tables src_mkdir_exclusive ts ops (init_state c) w 0 = (wf, recs) ->
+    forall r, In r recs -> r_at r = r_dir r.
+
+(* refuted on the unchanged tree: the lazy graph holds the SHARED outputs object and reads its folder
+   (and request) when it is computed: start, start, compute the first -> it writes into the second's
+   directory *)
+Theorem C19_history_lazy_refuted : ~ C19_history_lazy_full.
+Proof.
+  intro H.
+  specialize (H "T" [Start 1 []; Start 1 []; Compute 0]
+                {| c_req := [[(Image, [Npy])]]; c_folder := "out"; c_prefix := "" |} [] _ _ eq_refl).
+  vm_compute in H. specialize (H _ (or_introl eq_refl)). discriminate H.
+Qed.
+Print Assumptions C19_history_lazy_refuted.
